@@ -335,6 +335,10 @@ func (pc *parentController) processNextWorkItem() bool {
 }
 
 func (pc *parentController) enqueueParentObject(obj interface{}) {
+	// A delete may be delivered as a tombstone; look at the object it carries.
+	if tombstone, ok := obj.(cache.DeletedFinalStateUnknown); ok {
+		obj = tombstone.Obj
+	}
 	// If the parent doesn't match our selector, and it doesn't have our
 	// finalizer, we don't care about it.
 	if parent, ok := obj.(*unstructured.Unstructured); ok {
